@@ -281,51 +281,62 @@ def body0(head):
     return body_entry(head)
 
 
+NP_NAMES = ("asarray", "array", "atleast_1d", "asanyarray", "take", "astype", "copy", "squeeze", "isnan", "isfinite", "isinf", "nditer", "clip", "minimum", "maximum", "fmin",
+            "fmax", "where", "full_like", "min", "max", "amin", "amax", "nanmin", "nanmax", "any", "all")
+
+
 def setter(check: Check) -> None:
+    """O6: the `value` setter interpreted (sa/absexec.py) on arrays of abstract elements: with lock_range every element that is not NaN is stored
+    clipped to [minimum, maximum] (for the four kinds of range: bounded, bounded below, bounded above, unbounded - where clipping is the identity),
+    without it the value is stored as it is."""
+    from ..absexec import AbsExec, Closure, Internal, MObj, Opaque, Raised, Unknown
+    from .common import static_resolver
+
     p = check.program
     ov = p.cls("OutputVariable")
     fn = ov.lookup_setter("value")
     if fn is None:
         raise AnalysisError("anchor vanished: Variable.value setter")
     check.analysed(fn)
-    r = Resolver(p, fn)
-    cfg = r.cfg
-    param = fn.params[1].name
-    stores = [(n, t) for n in cfg.stmt_nodes() for t in cfg.stores_at(n) if isinstance(t, ast.Attribute) and t.attr == "_value"]
-    if not stores:
-        raise AnalysisError("Variable.value.setter does not store _value")
-    # enumerate lock_range in {True, False}: which expression is stored?
-    results = {}
-    for lock in (True, False):
-        vals = set()
-        for n, t in stores:
-            gs = [(r.term(g, gn), pol) for g, pol, gn in cfg.must_guards(n)]
-            feasible = True
-            for gt, pol in gs:
-                if path_of(gt) == "self.lock_range" and pol != lock:
-                    feasible = False
-                if gt == ("unop", "not", ("attr", ("param", "self"), "lock_range")) and pol == lock:
-                    feasible = False
-            if not feasible:
-                continue
-            v = r.term(n.ast.value, n)  # type: ignore[union-attr]
-            if v[0] == "ifexp" and path_of(v[1]) == "self.lock_range":
-                v = v[2] if lock else v[3]
-            elif v[0] == "ifexp" and v[1] == ("unop", "not", ("attr", ("param", "self"), "lock_range")):
-                v = v[3] if lock else v[2]
-            vals.add(v)
-        results[lock] = vals
-    clip_ok = len(results[True]) == 1 and (lambda v: v[0] == "call" and v[1][0] == "global" and v[1][1] in
-                                           ("numpy.clip", "fuzzylite.operation.Operation.bound") and len(v[2]) == 3 and
-                                           strip(v[2][0]) == ("param", param) and path_of(v[2][1]) == "self.minimum" and
-                                           path_of(v[2][2]) == "self.maximum")(next(iter(results[True])))
-    plain_ok = results[False] == {("param", param)}
-    check.require(clip_ok, "O6", "Variable.value.setter/lock-range",
-                  "with lock_range the stored value is clip(value, self.minimum, self.maximum)" if clip_ok else
-                  f"with lock_range the stored value is {[show(v) for v in results[True]]}", loc(fn), exhaustive=True, cases=2)
-    check.require(plain_ok, "O6", "Variable.value.setter/no-lock",
-                  "without lock_range the value is stored unchanged" if plain_ok else
-                  f"without lock_range the stored value is {[show(v) for v in results[False]]}", loc(fn))
+    am = array_model(fn.qualname)
+    bad: dict[str, str] = {}
+    cases = 0
+    try:
+        for lock in (True, False):
+            for bounds in [(0.0, 1.0), (0.0, float("inf")), (float("-inf"), 1.0), (float("-inf"), float("inf"))]:
+                for items, zero_d in (([0.25], True), ([2.0], True), ([-1.0], True), ([NAN], True), ([0.25, NAN, 2.0], False), ([-1.0, 0.5], False), ([0.25, 0.5], False),
+                                      ([NAN, NAN], False), ([2.0, NAN, -1.0], False), ("plain", 0.25), ("plain", 2.0), ("plain", -1.0), ("plain", float("nan")),
+                                      ("plain", 1)):
+                    cases += 1
+                    obj = MObj("OutputVariable", {"lock_range": lock, "minimum": bounds[0], "maximum": bounds[1], "_value": am.Arr([NAN], True), "name": Opaque("name")})
+                    hooks = {"setitem": am.setitem, "scalar": lambda ex_, e, args, kw: am.as_arr(args[0]), "array": lambda ex_, e, args, kw: am.as_arr(args[0]),
+                             "compare": am.compare, "truth": am.truth, "instance-of": am.instance_of}
+                    for nm in NP_NAMES:
+                        hooks[f"method:{nm}"] = am.np_call(nm)
+                    ex = AbsExec(fn.qualname, hooks, helpers={k: v for k, v in fn.cls.methods.items() if k.startswith("_") and not k.startswith("__")})
+                    ex.static_resolver = static_resolver(p)
+                    ex.globals = {"np": Opaque("np"), "nan": NAN}
+                    plain = items == "plain"
+                    handed = zero_d if plain else am.Arr(list(items), zero_d)
+                    if plain:
+                        items = [am.mark(zero_d)]
+                    what = f"lock_range={lock}, range [{bounds[0]}, {bounds[1]}], value {('the plain number ' + str(handed)) if plain else (items[0] if zero_d else items)}"
+                    try:
+                        ex.call_closure(Closure(fn.node, {}), [obj, handed], {}, fn.node)
+                    except (Raised, Internal) as err:
+                        bad.setdefault("lock-range" if lock else "no-lock", f"{what}: the setter ends with {err.cls}")
+                        continue
+                    got = obj.fields["_value"]
+                    got_items = list(got.items) if isinstance(got, am.Arr) else [am.mark(got)]
+                    want = [am.clipped(x, bounds[0], bounds[1]) for x in items] if lock else list(items)
+                    if got_items != want:
+                        bad.setdefault("lock-range" if lock else "no-lock", f"{what}: the stored value is {got_items}, specified {want}")
+    except Unknown as u:
+        raise AnalysisError(str(u)) from None
+    check.require("lock-range" not in bad, "O6", "Variable.value.setter/lock-range", f"with lock_range the stored value is the value clipped to [minimum, maximum], NaN kept "
+                  f"({cases} cases)" if "lock-range" not in bad else bad["lock-range"], loc(fn), exhaustive=True, cases=cases)
+    check.require("no-lock" not in bad, "O6", "Variable.value.setter/no-lock", "without lock_range the value is stored unchanged" if "no-lock" not in bad else bad["no-lock"],
+                  loc(fn), exhaustive=True, cases=cases)
 
 
 def clear(check: Check) -> None:
@@ -351,6 +362,181 @@ def clear(check: Check) -> None:
 
 
 # ------------------------------------------------------------------------------------------------ O-sem
+NAN = "nan"
+VALUES = (0.25, 2.0, -1.0, 0.5, 1.5, -0.5)  # inside, above, below the range [0, 1]
+DEFAULT = 3.0  # a default value outside [0, 1], so that clipping it is visible
+
+
+def array_model(qual: str):  # type: ignore[no-untyped-def]
+    """The model of numpy arrays the interpretations of this module share: arrays whose elements are the marker NAN or distinct numbers chosen below,
+    inside and above the range, so that clipping, NaN-propagating / NaN-ignoring reductions and elementwise comparisons have their numpy meaning."""
+    from types import SimpleNamespace
+
+    from ..absexec import Unknown
+
+    class Arr:
+        """An array of abstract elements (0-d when `zero_d`)."""
+
+        def __init__(self, items: list, zero_d: bool = False):
+            self.items = list(items)
+            self.zero_d = zero_d
+
+        def __repr__(self) -> str:
+            return (str(self.items[0]) if self.zero_d else str(self.items))
+
+    class Ref:
+        def __init__(self, arr: Arr, i: int):
+            self.arr, self.i = arr, i
+
+    def mark(x):  # type: ignore[no-untyped-def]
+        return NAN if isinstance(x, float) and x != x else x  # a plain Python NaN is the same element as the marker
+
+    def elems(v):  # type: ignore[no-untyped-def]
+        if isinstance(v, Arr):
+            return list(v.items)
+        if isinstance(v, Ref):
+            return [v.arr.items[v.i]]
+        return [mark(v)]
+
+    def as_arr(v) -> Arr:  # type: ignore[no-untyped-def]
+        if isinstance(v, Arr):
+            return v
+        if isinstance(v, Ref):
+            return Arr([v.arr.items[v.i]], True)
+        return Arr([mark(v)], True)
+
+    def instance_of(ex_, v, c):  # type: ignore[no-untyped-def]
+        if isinstance(v, (Arr, Ref)):
+            return False  # an array is neither an int nor a float
+        cs = c if isinstance(c, tuple) and c and isinstance(c[0], tuple) else (c,)
+        names = {x[1] for x in cs if isinstance(x, tuple) and len(x) == 2 and x[0] == "builtin"}
+        if isinstance(v, (int, float)) and not isinstance(v, bool) and names and len(names) == len(cs):
+            return ("float" in names and isinstance(v, float)) or ("int" in names and isinstance(v, int))
+        return NotImplemented
+
+    def clipped(x, lo_, hi_):  # type: ignore[no-untyped-def]
+        """An element limited to [lo_, hi_]: NaN stays NaN (elements are the marker NAN or numbers)."""
+        if x == NAN:
+            return x
+        if not isinstance(lo_, (int, float)) or not isinstance(hi_, (int, float)) or not isinstance(x, (int, float)):
+            raise Unknown(f"{qual}: clipping something other than numbers to the bounds of the range is outside the model of the cascade")
+        return min(max(x, lo_), hi_)
+
+    def reduce_(name: str, v):  # type: ignore[no-untyped-def]
+        xs = elems(v)
+        nums = [x for x in xs if x != NAN]
+        if name in ("min", "max", "amin", "amax"):
+            if len(nums) != len(xs) or not nums:
+                return NAN  # NaN propagates through np.min / np.max
+            return min(nums) if name in ("min", "amin") else max(nums)
+        if not nums:
+            return NAN
+        return min(nums) if name == "nanmin" else max(nums)
+
+    def compare(ex_, op: str, a, b):  # type: ignore[no-untyped-def]
+        """Comparisons with arrays are elementwise; every comparison with NaN is false, except !=."""
+        def one(x, y) -> bool:  # type: ignore[no-untyped-def]
+            if x == NAN or y == NAN:
+                return op == "!="
+            return {"<": x < y, "<=": x <= y, ">": x > y, ">=": x >= y, "==": x == y, "!=": x != y}[op]
+
+        if not isinstance(a, (Arr, Ref)) and not isinstance(b, (Arr, Ref)) and a != NAN and b != NAN:
+            return NotImplemented
+        ea, eb = elems(a), elems(b)
+        n_ = max(len(ea), len(eb))
+        out = [one(ea[i if len(ea) > 1 else 0], eb[i if len(eb) > 1 else 0]) for i in range(n_)]
+        whole = (isinstance(a, Arr) and not a.zero_d) or (isinstance(b, Arr) and not b.zero_d)
+        return Arr(out) if whole else out[0]
+
+    def truth(ex_, v):  # type: ignore[no-untyped-def]
+        if isinstance(v, (Arr, Ref)):
+            xs = elems(v)
+            if len(xs) != 1:
+                from ..absexec import Raised
+
+                raise Raised("ValueError", None)  # the truth value of an array with more than one element is ambiguous
+            return xs[0] == NAN or bool(xs[0])
+        if v == NAN:
+            return True
+        return NotImplemented
+
+    def np_call(name: str):
+        def f(ex_, e, recv, args, kw):
+            if name in ("asarray", "array", "atleast_1d", "scalar", "asanyarray"):
+                return as_arr(args[0])
+            if name == "take":
+                a = as_arr(args[0] if args else kw.get("a"))
+                idx_ = args[1] if len(args) > 1 else kw.get("indices")
+                if not isinstance(idx_, int) or not -len(a.items) <= idx_ < len(a.items):
+                    raise Unknown(f"{qual}: numpy.take with this index is outside the model of the cascade")
+                return Arr([a.items[idx_]], True)
+            if name in ("astype", "copy", "squeeze"):
+                return Arr(list(recv.items), recv.zero_d) if isinstance(recv, Arr) else recv
+            if name == "isnan":
+                v = args[0]
+                if isinstance(v, Arr) and not v.zero_d:
+                    return Arr([x == NAN for x in v.items])
+                return elems(v)[0] == NAN
+            if name == "isfinite":
+                v = args[0]
+                fin = lambda x: (x == x and abs(x) != float("inf")) if isinstance(x, float) else x != NAN  # noqa: E731
+                if isinstance(v, Arr) and not v.zero_d:
+                    return Arr([fin(x) for x in v.items])
+                return fin(elems(v)[0])
+            if name == "isinf":
+                v = args[0]
+                inf_ = lambda x: isinstance(x, float) and abs(x) == float("inf")  # noqa: E731
+                if isinstance(v, Arr) and not v.zero_d:
+                    return Arr([inf_(x) for x in v.items])
+                return inf_(elems(v)[0])
+            if name in ("min", "max", "amin", "amax", "nanmin", "nanmax"):
+                return reduce_(name, args[0] if args else recv)
+            if name in ("any", "all"):
+                xs = elems(args[0] if args else recv)
+                return (any if name == "any" else all)(x == NAN or bool(x) for x in xs)
+            if name == "nditer":
+                return ("nditer", as_arr(args[0]))
+            if name in ("clip", "minimum", "maximum", "fmin", "fmax"):
+                a = as_arr(args[0])
+                if name == "clip":
+                    lo_, hi_ = (list(args[1:3]) + [kw.get("a_min", kw.get("min")), kw.get("a_max", kw.get("max"))])[:2] if len(args) >= 3 else \
+                        (kw.get("a_min", kw.get("min", args[1] if len(args) > 1 else None)), kw.get("a_max", kw.get("max")))
+                    return Arr([clipped(x, lo_, hi_) for x in a.items], a.zero_d)
+                other = elems(args[1])[0]
+                return Arr([clipped(x, other if name in ("maximum", "fmax") else float("-inf"), other if name in ("minimum", "fmin") else float("inf")) for x in a.items], a.zero_d)
+            if name == "where" and len(args) == 3:
+                m, a, b = as_arr(args[0]), as_arr(args[1]), as_arr(args[2])
+                n_ = max(len(m.items), len(a.items), len(b.items))
+                pick = lambda arr, i: arr.items[i if len(arr.items) > 1 else 0]  # noqa: E731
+                return Arr([pick(a, i) if pick(m, i) else pick(b, i) for i in range(n_)], n_ == 1 and m.zero_d and a.zero_d and b.zero_d)
+            if name == "full_like":
+                a = as_arr(args[0])
+                return Arr([elems(args[1])[0]] * len(a.items), a.zero_d)
+            raise Unknown(f"{qual}: numpy.{name} is outside the model of the cascade")
+        return f
+
+    def setitem(ex_, e, base, idx, v):
+        val = elems(v)
+        if isinstance(base, Ref):
+            base.arr.items[base.i] = val[0]
+            return
+        if isinstance(base, Arr) and isinstance(idx, Arr):  # boolean mask
+            for i, m in enumerate(idx.items if len(idx.items) == len(base.items) else idx.items * len(base.items)):
+                if m:
+                    base.items[i] = val[0] if len(val) == 1 else val[i]
+            return
+        if isinstance(base, Arr) and isinstance(idx, bool):  # 0-d array indexed with a 0-d boolean
+            if idx:
+                base.items[:] = [val[0]] * len(base.items)
+            return
+        if isinstance(base, Arr) and idx is Ellipsis:
+            base.items[:] = val * len(base.items) if len(val) == 1 else val
+            return
+        raise Unknown(f"{qual}: this element assignment is outside the model of the cascade")
+
+    return SimpleNamespace(Arr=Arr, Ref=Ref, elems=elems, as_arr=as_arr, clipped=clipped, np_call=np_call, setitem=setitem, compare=compare, truth=truth, instance_of=instance_of, mark=mark)
+
+
 def cascade_semantics(check: Check) -> None:
     """O-sem [E up to the bound]: `OutputVariable.defuzzify` (with the `value` property setter it commits through) is interpreted
     abstractly (sa/absexec.py) on arrays of abstract elements - NaN or distinct symbols - for every sequence of two calls drawn from
@@ -373,117 +559,12 @@ def cascade_semantics(check: Check) -> None:
         raise AnalysisError("anchor vanished: Variable.value property")
     check.analysed(setter)
     node = fn.analysis_node
-    NAN = "nan"
     from .common import static_resolver
 
     resolver = static_resolver(p)
 
-    class Arr:
-        """An array of abstract elements (0-d when `zero_d`)."""
-
-        def __init__(self, items: list, zero_d: bool = False):
-            self.items = list(items)
-            self.zero_d = zero_d
-
-        def __repr__(self) -> str:
-            return (str(self.items[0]) if self.zero_d else str(self.items))
-
-    class Ref:
-        def __init__(self, arr: Arr, i: int):
-            self.arr, self.i = arr, i
-
-    def elems(v):  # type: ignore[no-untyped-def]
-        if isinstance(v, Arr):
-            return list(v.items)
-        if isinstance(v, Ref):
-            return [v.arr.items[v.i]]
-        return [v]
-
-    def as_arr(v) -> Arr:  # type: ignore[no-untyped-def]
-        if isinstance(v, Arr):
-            return v
-        if isinstance(v, Ref):
-            return Arr([v.arr.items[v.i]], True)
-        return Arr([v], True)
-
-    def clipped(x, lo_, hi_):  # type: ignore[no-untyped-def]
-        """An abstract element limited to [lo_, hi_]: unchanged when NaN or when neither bound is finite; bounds applied one after the other
-        (maximum then minimum) compose to the same thing."""
-        if x == NAN:
-            return x
-        lo0, hi0 = float("-inf"), float("inf")
-        if isinstance(x, tuple) and x and x[0] == "clip":
-            x, lo0, hi0 = x[1], x[2], x[3]
-        if not isinstance(lo_, float) or not isinstance(hi_, float):
-            raise Unknown(f"{fn.qualname}: clipping to something other than the bounds of the range is outside the model of the cascade")
-        lo1, hi1 = max(lo0, lo_), min(hi0, hi_)
-        return x if lo1 == float("-inf") and hi1 == float("inf") else ("clip", x, lo1, hi1)
-
-    def np_call(name: str):
-        def f(ex_, e, recv, args, kw):
-            if name in ("asarray", "array", "atleast_1d", "scalar", "asanyarray"):
-                return as_arr(args[0])
-            if name == "take":
-                a = as_arr(args[0])
-                return Arr([a.items[args[1]]], True)
-            if name in ("astype", "copy", "squeeze"):
-                return Arr(list(recv.items), recv.zero_d) if isinstance(recv, Arr) else recv
-            if name == "isnan":
-                v = args[0]
-                if isinstance(v, Arr) and not v.zero_d:
-                    return Arr([x == NAN for x in v.items])
-                return elems(v)[0] == NAN
-            if name == "isfinite":
-                v = args[0]
-                fin = lambda x: (x == x and abs(x) != float("inf")) if isinstance(x, float) else x != NAN  # noqa: E731
-                if isinstance(v, Arr) and not v.zero_d:
-                    return Arr([fin(x) for x in v.items])
-                return fin(elems(v)[0])
-            if name == "isinf":
-                v = args[0]
-                inf_ = lambda x: isinstance(x, float) and abs(x) == float("inf")  # noqa: E731
-                if isinstance(v, Arr) and not v.zero_d:
-                    return Arr([inf_(x) for x in v.items])
-                return inf_(elems(v)[0])
-            if name == "nditer":
-                return ("nditer", as_arr(args[0]))
-            if name in ("clip", "minimum", "maximum", "fmin", "fmax"):
-                a = as_arr(args[0])
-                if name == "clip":
-                    lo_, hi_ = (list(args[1:3]) + [kw.get("a_min", kw.get("min")), kw.get("a_max", kw.get("max"))])[:2] if len(args) >= 3 else \
-                        (kw.get("a_min", kw.get("min", args[1] if len(args) > 1 else None)), kw.get("a_max", kw.get("max")))
-                    return Arr([clipped(x, lo_, hi_) for x in a.items], a.zero_d)
-                other = elems(args[1])[0]
-                return Arr([clipped(x, other if name in ("maximum", "fmax") else float("-inf"), other if name in ("minimum", "fmin") else float("inf")) for x in a.items], a.zero_d)
-            if name == "where" and len(args) == 3:
-                m, a, b = as_arr(args[0]), as_arr(args[1]), as_arr(args[2])
-                n_ = max(len(m.items), len(a.items), len(b.items))
-                pick = lambda arr, i: arr.items[i if len(arr.items) > 1 else 0]  # noqa: E731
-                return Arr([pick(a, i) if pick(m, i) else pick(b, i) for i in range(n_)], n_ == 1 and m.zero_d and a.zero_d and b.zero_d)
-            if name == "full_like":
-                a = as_arr(args[0])
-                return Arr([elems(args[1])[0]] * len(a.items), a.zero_d)
-            raise Unknown(f"{fn.qualname}: numpy.{name} is outside the model of the cascade")
-        return f
-
-    def setitem(ex_, e, base, idx, v):
-        val = elems(v)
-        if isinstance(base, Ref):
-            base.arr.items[base.i] = val[0]
-            return
-        if isinstance(base, Arr) and isinstance(idx, Arr):  # boolean mask
-            for i, m in enumerate(idx.items if len(idx.items) == len(base.items) else idx.items * len(base.items)):
-                if m:
-                    base.items[i] = val[0] if len(val) == 1 else val[i]
-            return
-        if isinstance(base, Arr) and isinstance(idx, bool):  # 0-d array indexed with a 0-d boolean
-            if idx:
-                base.items[:] = [val[0]] * len(base.items)
-            return
-        if isinstance(base, Arr) and idx is Ellipsis:
-            base.items[:] = val * len(base.items) if len(val) == 1 else val
-            return
-        raise Unknown(f"{fn.qualname}: this element assignment is outside the model of the cascade")
+    am = array_model(fn.qualname)
+    Arr, Ref, elems, as_arr, clipped, np_call, setitem = am.Arr, am.Ref, am.elems, am.as_arr, am.clipped, am.np_call, am.setitem
 
     def enter(ex_, e, ctx):
         return ctx
@@ -518,7 +599,7 @@ def cascade_semantics(check: Check) -> None:
         return (out, last), None
 
     try:
-        for enabled, lockp, default, lockr in itertools.product((True, False), (True, False), (NAN, "dflt"), (True, False)):
+        for enabled, lockp, default, lockr in itertools.product((True, False), (True, False), (NAN, DEFAULT), (True, False)):
             cfg = (enabled, lockp, default, lockr)
             # the range matters only under lock-range: bounded, bounded on one side, unbounded
             ranges = [(0.0, 1.0), (0.0, float("inf")), (float("-inf"), 1.0), (float("-inf"), float("inf"))] if lockr else [(0.0, 1.0)]
@@ -538,19 +619,20 @@ def cascade_semantics(check: Check) -> None:
 
                 obj.fields["defuzzifier"] = MObj("Defuzzifier", {})
                 hooks = {"method:defuzzify": defuzzify, "setitem": setitem, "enter": enter, "scalar": lambda ex_, e, args, kw: as_arr(args[0]),
-                         "array": lambda ex_, e, args, kw: as_arr(args[0])}
-                for nm in ("asarray", "array", "atleast_1d", "asanyarray", "take", "astype", "copy", "squeeze", "isnan", "isfinite", "isinf", "nditer", "clip", "minimum", "maximum", "fmin", "fmax",
-                           "where", "full_like"):
+                         "array": lambda ex_, e, args, kw: as_arr(args[0]), "compare": am.compare, "truth": am.truth,
+                         "instance-of": am.instance_of}
+                for nm in NP_NAMES:
                     hooks[f"method:{nm}"] = np_call(nm)
                 ex = AbsExec(fn.qualname, hooks, helpers={k: v for k, v in fn.cls.methods.items() if k.startswith("_") and not k.startswith("__")})
                 ex.properties[("OutputVariable", "value")] = (getter, setter)
                 ex.static_resolver = resolver
                 ex.iterate_hook = lambda v: [Ref(v[1], i) for i in range(len(v[1].items))] if isinstance(v, tuple) and v and v[0] == "nditer" else None  # type: ignore[attr-defined]
                 k = 0
-                names = iter("abcdefgh")
+                position = 0
                 for batch in seq:
                     k += 1
-                    b = None if batch is None else tuple(x if x == NAN else f"{next(names)}{k}" for x in batch)
+                    # distinct numbers, below / inside / above [0, 1] in turn, different from call to call
+                    b = None if batch is None else tuple(x if x == NAN else VALUES[(position := position + 1) % len(VALUES)] + k / 64.0 for x in batch)
                     script[:] = [b]
                     env = {"self": obj, "np": Opaque("np"), "nan": NAN}
                     pv0 = obj.fields["previous_value"]
